@@ -10,16 +10,40 @@ Definition is_meta (c : N) : bool :=
   existsb (N.eqb c) [92; 46; 43; 42; 63; 40; 41; 124; 91; 93; 123; 125; 94; 36; 35; 38; 45; 126].
 Definition re_escape (s : str) : str := flat_map (fun c => if is_meta c then [92; c] else [c]) s.
 
+(* exactly `retry <n> backoff <d>`: would be read back as a retry clause *)
+Definition retry_shaped (ws : list str) : bool :=
+  match ws with
+  | [a; _; c; _] => str_eqb a (lit "retry") && str_eqb c (lit "backoff")
+  | _ => false
+  end.
+
+(* does the inline form survive being tokenised and re-joined by single blanks? *)
+Definition inline_fits (escaped : str) : bool :=
+  str_eqb (join [32] (split_ws escaped)) escaped && negb (retry_shaped (split_ws escaped)).
+
 (* ExpectedError::from_actual_error *)
 Definition from_actual_error (reference : option experr) (actual : str) : experr :=
   let trimmed := trim actual in
   let err_is_multiline := match lines trimmed with _ :: _ :: _ => true | _ => false end in
-  let multiline := match reference with Some (EMulti _) => true | _ => err_is_multiline end in
+  let escaped := re_escape actual in
+  let multiline := match reference with
+                   | Some (EMulti _) => true
+                   | _ => err_is_multiline || negb (inline_fits escaped)
+                   end in
   if multiline then EMulti trimmed
-  else match re_escape actual with
+  else match escaped with
        | [] => EEmpty
        | re => EInline re
        end.
+
+(* runner.rs new_expected_error: a record with a retry clause never gets an inline message *)
+Definition new_expected_error (reference : option experr) (actual : str) (has_retry : bool) : experr :=
+  match from_actual_error reference actual with
+  | EInline _ => if has_retry then EMulti (trim actual) else from_actual_error reference actual
+  | e => e
+  end.
+
+Definition has_retry (r : option retry) : bool := match r with Some _ => true | None => false end.
 
 Section Update.
   Variable re_match : str -> str -> bool.
@@ -34,10 +58,9 @@ Section Update.
     | ONothing => None
     | _ =>
     match r, o with
-    | RStatement l cs c sql (SOk as e) rt, OQuery _ rows None
-    | RStatement l cs c sql (SCount _ as e) rt, OQuery _ rows None =>
+    | RStatement l cs c sql e rt, OQuery _ rows None =>
         Some (RStatement l cs c sql
-                (match e with SCount _ => SCount (N.of_nat (length rows)) | _ => e end) rt)
+                (match e with SCount _ => SCount (N.of_nat (length rows)) | _ => SOk end) rt)
     | RQuery l cs c sql _ rt, OStatement count None =>
         Some (RStatement l cs c sql (SCount count) rt)
     | RStatement l cs c sql e rt, OStatement count err =>
@@ -48,8 +71,8 @@ Section Update.
             match e with
             | SError x =>
                 if err_match re_match x m then None
-                else Some (RStatement l cs c sql (SError (from_actual_error (Some x) m)) rt)
-            | _ => Some (RStatement l cs c sql (SError (from_actual_error None m)) rt)
+                else Some (RStatement l cs c sql (SError (new_expected_error (Some x) m (has_retry rt))) rt)
+            | _ => Some (RStatement l cs c sql (SError (new_expected_error None m (has_retry rt))) rt)
             end
         end
     | RQuery l cs c sql e rt, OQuery types rows err =>
@@ -58,8 +81,8 @@ Section Update.
             match e with
             | QError x =>
                 if err_match re_match x m then None
-                else Some (RQuery l cs c sql (QError (from_actual_error (Some x) m)) rt)
-            | QResults _ _ _ _ => Some (RQuery l cs c sql (QError (from_actual_error None m)) rt)
+                else Some (RQuery l cs c sql (QError (new_expected_error (Some x) m (has_retry rt))) rt)
+            | QResults _ _ _ _ => Some (RQuery l cs c sql (QError (new_expected_error None m (has_retry rt))) rt)
             end
         | None =>
             let results := match e with
@@ -76,51 +99,24 @@ Section Update.
                      | QError _ => QResults types' None None results
                      end) rt)
         end
-    | RSystem l cs cmd _ rt, OSystem out _ => Some (RSystem l cs cmd out rt)
+    | RSystem l cs cmd _ rt, OSystem out failed =>
+        if failed then None else Some (RSystem l cs cmd out rt)
     | _, _ => None
     end
     end.
 
   (* ---- classes of (record, answer) on which the unchanged updater is known not to converge
-     (known findings D3, D4, D5, D6, D12; see DESIGN.md section 5) *)
-  Definition new_inline (r r' : record) : option str :=
-    let old := match r with
-               | RStatement _ _ _ _ (SError (EInline x)) _ | RQuery _ _ _ _ (QError (EInline x)) _ => Some x
-               | _ => None end in
-    let new := match r' with
-               | RStatement _ _ _ _ (SError (EInline x)) _ | RQuery _ _ _ _ (QError (EInline x)) _ => Some x
-               | _ => None end in
-    match new, old with
-    | Some x, Some y => if str_eqb x y then None else Some x
-    | Some x, None => Some x
-    | None, _ => None
-    end.
-
-  Definition is_retry_shape_words (ws : list str) : bool :=
-    match ws with
-    | [a; _; c; _] => str_eqb a (lit "retry") && str_eqb c (lit "backoff")
-    | _ => false
-    end.
-
+     (known findings D5, D12; see DESIGN.md section 5) *)
   Definition known_class (g : config) (r : record) (o : routput) : list N :=
-    let r' := match update_record r o with Some x => x | None => r end in
-    (match new_inline r r' with
-     | Some re =>
-         (if negb (str_eqb (join [32] (split_ws re)) re) then [3] else []) ++
-         (if (match record_retry r with Some _ => true | None => false end) || is_retry_shape_words (split_ws re)
-          then [4] else [])
-     | None => []
-     end) ++
-    (match r, o with
-     | RQuery _ _ _ _ _ _, OQuery _ rows None =>
-         (match rmode g with
-          | Some ValueWise => if existsb (fun row => negb (Nat.eqb (length row) 1)) rows then [5] else []
-          | _ => []
-          end) ++
-         (if validate rows (map (join sep) rows) then [] else [12])
-     | RStatement _ _ _ _ (SError _) _, OQuery _ _ None => [6]
-     | _, _ => []
-     end).
+    match r, o with
+    | RQuery _ _ _ _ _ _, OQuery _ rows None =>
+        (match rmode g with
+         | Some ValueWise => if existsb (fun row => negb (Nat.eqb (length row) 1)) rows then [5] else []
+         | _ => []
+         end) ++
+        (if validate rows (map (join sep) rows) then [] else [12])
+    | _, _ => []
+    end.
 
   (* ---- file-level driver *)
   Variable substitute : bool -> list (str * str) -> str -> subres.
